@@ -943,6 +943,19 @@ func (env *Env) call(x *SExpr) Value {
 			for _, a := range args {
 				vals = append(vals, env.eval(a))
 			}
+			if len(fc.Results) == 1 && fc.Results[0].Ty != "" {
+				if rt := env.resolveTypeIn(fc.Results[0].Ty, fc.PkgPath); rt != nil {
+					if sds := slotsOf(rt); len(sds) > 1 {
+						out := Value{T: rt}
+						for i, sd := range sds {
+							out.S = append(out.S, e.functionalTerm(env.st, fmt.Sprintf("%s!%d", name, i), vals, sd.Sort))
+						}
+						return out
+					} else if len(sds) == 1 && sds[0].Sort != "Int" {
+						return Value{T: rt, S: []string{e.functionalTerm(env.st, name, vals, sds[0].Sort)}}
+					}
+				}
+			}
 			return intVal(e.functionalTerm(env.st, name, vals, "Int"))
 		}
 	}
